@@ -1,4 +1,5 @@
 import GdslModel.Lemmas.Conc
+import GdslModel.Lemmas.Reads
 /-!
 # C17 — concurrent operations on sync nodes terminate and serialise
 Threads run sequences of lock programs (`Model/Sync.lean`) over one shared store; `Conf.step c i`
@@ -80,5 +81,43 @@ theorem Conc.unlocked_not_serialisable :
                   threads := [{ prog := Sync.connect false 0 1 1 }, { prog := Sync.connect false 0 1 2 }] } : Conf Nat Nat (Res Nat)).runSched sched
       (∀ t ∈ c.threads, t.finished = true) ∧ (c.store.get 0).out = [(1, 1), (1, 2)] ∧ (c.store.get 1).inn = [(0, 2), (0, 1)] :=
   Conc.unlocked_not_serialisable'
+
+/-! ### readers are inert
+`NoWrite p` (Lemmas/Reads.lean): the lock program `p` contains no `write`, whatever it reads. -/
+
+/-- every query and every iterator step of the sync flavours is write-free, and so is every sequence
+    of write-free calls and everything composed from them with `bind` -/
+theorem Conc.queries_write_free (u v : K) (sel : Adj K E → List (K × E)) (pos : Nat) :
+    NoWrite (Sync.iterNext (E := E) u sel pos) ∧
+    NoWrite (Sync.Di.isConnected (E := E) u v) ∧ NoWrite (Sync.Di.outDegree (E := E) u) ∧
+    NoWrite (Sync.Di.inDegree (E := E) u) ∧ NoWrite (Sync.Di.isOrphan (E := E) u) ∧
+    NoWrite (Sync.Un.isConnected (E := E) u v) ∧ NoWrite (Sync.Un.degree (E := E) u) ∧
+    NoWrite (Sync.Un.isOrphan (E := E) u) :=
+  ⟨Conc.noWrite_iterNext u sel pos, Conc.noWrite_query u _, Conc.noWrite_query u _, Conc.noWrite_query u _,
+   Conc.noWrite_di_isOrphan u, Conc.noWrite_query u _, Conc.noWrite_query u _, Conc.noWrite_query u _⟩
+
+theorem Conc.query_write_free {R : Type} (u : K) (f : Adj K E → R) : NoWrite (Sync.query u f) :=
+  Conc.noWrite_query u f
+
+theorem Conc.write_free_bind {R S : Type} (p : Prog K E R) (f : R → Prog K E S) (hp : NoWrite p)
+    (hf : ∀ r, NoWrite (f r)) : NoWrite (p.bind f) :=
+  NoWrite.bind hp hf
+
+theorem Conc.write_free_seq {R : Type} (ps : List (Prog K E R)) (h : ∀ p ∈ ps, NoWrite p) : NoWrite (seqProg ps) :=
+  Conc.noWrite_seqProg ps h
+
+/-- a step of a thread whose residual program is write-free leaves the store unchanged, changes no other
+    thread, and leaves that thread with a write-free residual program -/
+theorem Conc.reads_inert {R : Type} (c c' : Conf K E R) (i : Nat) (t : Th K E R) (ht : c.threads[i]? = some t)
+    (hn : NoWrite t.prog) (hs : c.step i = some c') :
+    c'.store = c.store ∧ ∃ t', c'.threads = c.threads.set i t' ∧ NoWrite t'.prog :=
+  Conc.reads_inert' c c' i t ht hn hs
+
+/-- if all threads run write-free programs (queries, iterations, any sequences of them), the store never
+    changes, along any schedule, and all residual programs stay write-free -/
+theorem Conc.readers_never_change_store {R : Type} (c : Conf K E R) (h : ∀ t ∈ c.threads, NoWrite t.prog)
+    (sched : List Nat) :
+    (c.runSched sched).store = c.store ∧ ∀ t ∈ (c.runSched sched).threads, NoWrite t.prog :=
+  Conc.AllReaders.runSched h sched
 
 end G
